@@ -132,7 +132,7 @@ impl Prop for C03 {
         "C03"
     }
     fn cases(&self) -> (u64, u64) {
-        (100_000, 2_000_000)
+        (400_000, 2_000_000)
     }
     fn rule(&self) -> &'static str {
         "choice bytes -> broad definition without adjacent groups -> sentence built first (unique \
